@@ -511,3 +511,74 @@ func (z *Zone) hiddenByOptOut(n Name) bool {
 	}
 	return false
 }
+
+// ---------------------------------------------------------------- chain lookups (honest-server view)
+
+type nsecView struct {
+	rrs    []*dns.NSEC
+	owners []Name
+	nexts  []Name
+}
+
+func (z *Zone) nsecView() *nsecView {
+	v := &nsecView{rrs: z.NSECChain()}
+	for _, r := range v.rrs {
+		v.owners = append(v.owners, mustName(r.Hdr.Name))
+		v.nexts = append(v.nexts, mustName(r.NextDomain))
+	}
+	return v
+}
+
+func (v *nsecView) covers(i int, q Name) bool {
+	o, n := v.owners[i], v.nexts[i]
+	on := canonCmp(o, n)
+	qo, qn := canonCmp(q, o), canonCmp(q, n)
+	switch {
+	case on == 0:
+		return qo != 0
+	case on < 0:
+		return qo > 0 && qn < 0
+	}
+	return qo > 0 || qn < 0
+}
+
+func (v *nsecView) ownerIdx(q Name) int {
+	for i := range v.owners {
+		if v.owners[i].Equal(q) {
+			return i
+		}
+	}
+	return -1
+}
+
+func (v *nsecView) coverIdx(q Name) int {
+	for i := range v.owners {
+		if v.covers(i, q) {
+			return i
+		}
+	}
+	return -1
+}
+
+// n3Match / n3Cover: index into the primary NSEC3 chain of the record that
+// matches / covers H(n), or -1.
+func (z *Zone) n3Match(n Name) int {
+	h := nsec3Hash(n, z.salt, z.Spec.Iter)
+	for i := range z.chain3 {
+		if bytes.Equal(z.chain3[i].Hash, h) {
+			return i
+		}
+	}
+	return -1
+}
+
+func (z *Zone) n3Cover(n Name) int {
+	h := nsec3Hash(n, z.salt, z.Spec.Iter)
+	for i := range z.chain3 {
+		r := &z.chain3[i]
+		if hashCovered(r.Hash, z.chain3[r.NextIdx].Hash, h) {
+			return i
+		}
+	}
+	return -1
+}
